@@ -591,6 +591,17 @@ def set_notebook_diff_targets(sources=True, outputs=True, attachments=True,
                               metadata=True, identifier=True, details=True):
     """Configure the notebook differs to include/ignore various changes."""
 
+    # Keys of a cell that are ignored as a whole. These must also be filtered
+    # from the cell's own diff: a key that only one of the cells has
+    # (attachments) shows up there as add/remove, and an atomic value (id)
+    # as replace, without the differ of the subpath being consulted.
+    ignored_cell_keys = tuple(
+        key for key, shown in (
+            ('execution_count', details),
+            ('id', identifier),
+            ('attachments', attachments),
+        ) if not shown)
+
     config = {
         '/cells/*/source': not sources,
         '/cells/*/outputs': not outputs,
@@ -599,9 +610,15 @@ def set_notebook_diff_targets(sources=True, outputs=True, attachments=True,
         '/cells/*/id': not identifier,
         '/cells/*/metadata': not metadata,
         '/cells/*/outputs/*/metadata': not metadata,
-        '/cells/*': False if details else ('execution_count',),
+        '/cells/*': ignored_cell_keys or False,
         '/cells/*/outputs/*': False if details else ('execution_count',),
     }
+    # Key filters wrap the differ currently installed for the path, so start
+    # those paths from their defaults rather than from an earlier selection
+    set_notebook_diff_ignores({
+        '/cells/*': False,
+        '/cells/*/outputs/*': False,
+    })
     set_notebook_diff_ignores(config)
 
 
